@@ -218,6 +218,11 @@ def gen_ops(rng, store, n):
         op = {'o': o, 'k': key}
         if o == 'set':
             op['v'] = _cfg.rand_value(rng, 2, plain_only=False, np_scalars=0.5 if rng.random() < 0.3 else 0.0)
+        # "key paths read, write and delete exactly the entries that nested indexing does": a share of the writes / deletes at
+        # depth 2-3 is made by nested indexing ON THE CONFIGURATION OBJECT (config['imf_opts']['sd_thresh'] = x, the documented
+        # style), so that later path reads, the final store and the YAML / unpacking see entries written the other way
+        if o in ('set', 'del') and 2 <= len(p) <= 3 and '' not in p and rng.random() < 0.3:
+            op['via'] = 'nested'
         ops.append(op)
         if len(key.split('/')) <= 3:
             apply_nested(store, op)
@@ -232,6 +237,17 @@ class Edits(Stream):
         A = lambda *v: {'$': 'array', 'v': list(v)}  # noqa
         D = lambda *kv: {'$': 'dict', 'v': [list(x) for x in kv]}  # noqa
         return [
+            # writes / deletes by nested indexing on the configuration object, read back through key paths (round 5, C18 patch 2
+            # and C06 patch 2: __getitem__ handing out a copy of an option group)
+            {'init': {'config': 'sift'}, 'ops': [
+                {'o': 'set', 'k': 'imf_opts/sd_thresh', 'v': 0.25, 'via': 'nested'}, {'o': 'get', 'k': 'imf_opts/sd_thresh'},
+                {'o': 'set', 'k': 'extrema_opts/mag_pad_opts/stat_length', 'v': 3, 'via': 'nested'},
+                {'o': 'get', 'k': 'extrema_opts/mag_pad_opts/stat_length'}, {'o': 'del', 'k': 'imf_opts/energy_thresh', 'via': 'nested'},
+                {'o': 'get', 'k': 'imf_opts/energy_thresh'}, {'o': 'get', 'k': 'imf_opts'}]},
+            {'init': {'config': 'mask_sift'}, 'ops': [
+                {'o': 'set', 'k': 'envelope_opts/interp_method', 'v': 'pchip', 'via': 'nested'}, {'o': 'get', 'k': 'envelope_opts'},
+                {'o': 'set', 'k': 'extrema_opts/pad_width', 'v': 4, 'via': 'nested'}, {'o': 'del', 'k': 'extrema_opts/pad_width'},
+                {'o': 'get', 'k': 'extrema_opts'}]},
             {'init': {'config': 'sift'}, 'ops': [
                 {'o': 'get', 'k': 'imf_opts/sd_thresh'}, {'o': 'set', 'k': 'imf_opts/sd_thresh', 'v': 0.05},
                 {'o': 'get', 'k': 'imf_opts/sd_thresh'}, {'o': 'get', 'k': 'imf_opts'},
@@ -294,7 +310,7 @@ class Edits(Stream):
         res, sres, unchanged = [], [], []
         for op in case['ops']:
             before = _cfg.safe_wire(cfg.store)
-            res.append(apply_keypath(cfg, op))
+            res.append(apply_nested(cfg, op) if op.get('via') == 'nested' else apply_keypath(cfg, op))
             if res[-1].startswith('e:'):
                 unchanged.append(_cfg.safe_wire(cfg.store) == before)
             # a key of more than three levels: the code refuses it (that is a rejection like any other - the store is
